@@ -11,6 +11,8 @@ def run(tier, seed):
     _, rep_b, nb = enginecommon.histories(v, wd, "blocker", d)
     _, rep_e, ne = enginecommon.histories(v, wd, "engine", d)
     _, rep_n, nn = enginecommon.histories(v, wd, "engine", d, initset="notagblock")
+    # deeper histories over tag assignment / discard / query only: free-then-reallocate sequences
+    _, rep_t, nt = enginecommon.histories(v, wd, "blocker", 6 if tier == "quick" else 7, ops="tags")
     enginecommon.any_alloc(v, wd, "blocker", 3 if tier == "quick" else 5)
     if tier == "thorough":
         enginecommon.dev_selftest(v, wd)
